@@ -1,4 +1,4 @@
-SPECIFICATION Spec
+SPECIFICATION SpecSparse
 CONSTANT Keys <- Keys4
 INVARIANT CycleFound
 INVARIANT Topological
